@@ -255,7 +255,19 @@ func main() {
 				}
 				m := ocispec.Manifest{MediaType: ocispec.MediaTypeImageManifest, Config: notationCfg, Layers: layers, Subject: &sub}
 				m.SchemaVersion = 2
-				d := pushJSON(ctx, store, ocispec.MediaTypeImageManifest, m)
+				var doc any = m
+				if len(layers) == 0 && rng.Bool() {
+					// no layer - but a member of the OTHER manifest format ("blobs") that does carry one: still not a signature manifest
+					smuggled, _ := oras.PushBytes(ctx, store, lib.MediaJWS, []byte(fmt.Sprint("smuggled-through-blobs-member", iter, op)))
+					bds = append(bds, smuggled.Digest)
+					mb, _ := json.Marshal(m)
+					var mm map[string]any
+					json.Unmarshal(mb, &mm)
+					mm["layers"], mm["blobs"] = []any{}, []ocispec.Descriptor{smuggled}
+					doc = mm
+					r.Event("zero-layers-with-blobs-member")
+				}
+				d := pushJSON(ctx, store, ocispec.MediaTypeImageManifest, doc)
 				trace = append(trace, fmt.Sprintf("hostile signature manifest with %d layers for subject#%d", len(layers), si))
 				addModel(sub, pushed{Kind: "hostile-layer-count", Man: d, Refuse: true, BlobDigest: bds})
 			case kind == 10: // hostile: the single layer declares more than 32 MiB
@@ -268,6 +280,22 @@ func main() {
 				d := pushJSON(ctx, store, ocispec.MediaTypeImageManifest, m)
 				trace = append(trace, fmt.Sprintf("hostile signature manifest whose layer declares %d bytes for subject#%d", lie.Size, si))
 				addModel(sub, pushed{Kind: "hostile-declared-blob-size", Man: d, Refuse: true, BlobDigest: []digest.Digest{real.Digest}})
+			case kind == 11 && rng.Bool():
+				// a hand-built signature manifest (exactly one layer) that also carries a member this format does not define
+				// ("blobs", as the legacy format calls it): unknown members are ignored, the one layer is the envelope
+				blob := []byte(fmt.Sprint("envelope of a manifest with an extension member ", iter, op))
+				bd, _ := oras.PushBytes(ctx, store, lib.MediaCOSE, blob)
+				decoy, _ := oras.PushBytes(ctx, store, lib.MediaJWS, []byte(fmt.Sprint("extension payload", iter, op)))
+				m := ocispec.Manifest{MediaType: ocispec.MediaTypeImageManifest, Config: notationCfg, Layers: []ocispec.Descriptor{bd}, Subject: &sub, Annotations: map[string]string{"ext": fmt.Sprint(op)}}
+				m.SchemaVersion = 2
+				mb, _ := json.Marshal(m)
+				var mm map[string]any
+				json.Unmarshal(mb, &mm)
+				mm["blobs"] = []ocispec.Descriptor{decoy}
+				d := pushJSON(ctx, store, ocispec.MediaTypeImageManifest, mm)
+				trace = append(trace, fmt.Sprintf("one-layer signature manifest with an extension member for subject#%d", si))
+				addModel(sub, pushed{Kind: "signature", MT: lib.MediaCOSE, Blob: blob, Ann: map[string]string{"ext": fmt.Sprint(op)}, Man: d})
+				r.Event("one-layer-with-extension-member")
 			default:
 				// re-push of an identical signature (idempotent)
 				if ps := model[keyOf(sub)]; len(ps) > 0 && ps[0].Kind == "signature" {
@@ -455,6 +483,44 @@ func main() {
 			}
 		}
 	}
+
+	// a signature manifest of EXACTLY the cap (4 MiB) is not over it: pushed, listed, fetched like any other; one byte more is refused
+	func() {
+		const capBytes = 4 * 1024 * 1024
+		for _, over := range []int{0, 1} {
+			store := &counting{GraphTarget: memory.New(), fetched: map[digest.Digest]int{}}
+			repo := registry.NewRepository(store)
+			sub, _ := oras.PushBytes(ctx, store, ocispec.MediaTypeImageManifest, []byte(`{"schemaVersion":2,"mediaType":"application/vnd.oci.image.manifest.v1+json","config":{"mediaType":"application/vnd.oci.empty.v1+json","digest":"sha256:44136fa355b3678a1146ad16f7e8649e94fb4fc21fe77e8310c060f61caaff8a","size":2},"layers":[],"annotations":{"exact":"cap"}}`))
+			blob := []byte(fmt.Sprint("envelope under a manifest at the cap ", over))
+			ann := func(pad int) map[string]string {
+				return map[string]string{ocispec.AnnotationCreated: "2026-01-01T00:00:00Z", "pad": strings.Repeat("p", pad)}
+			}
+			probe := registry.NewRepository(memory.New())
+			_, pm, err := probe.PushSignature(ctx, lib.MediaJWS, blob, sub, ann(1000))
+			if err != nil {
+				r.Inconclusive("cannot push the probe manifest: " + err.Error())
+				return
+			}
+			want := capBytes + over
+			_, man, err := repo.PushSignature(ctx, lib.MediaJWS, blob, sub, ann(1000+want-int(pm.Size)))
+			if err != nil || int(man.Size) != want {
+				r.Event("exact-cap-manifest-not-constructible")
+				continue
+			}
+			var listed []ocispec.Descriptor
+			lerr := repo.ListSignatures(ctx, sub, func(ds []ocispec.Descriptor) error { listed = append(listed, ds...); return nil })
+			got, _, ferr := repo.FetchSignatureBlob(ctx, man)
+			r.Eval(fmt.Sprintf("manifest-at-cap+%d", over))
+			r.Event("manifests-at-the-cap")
+			if over == 0 {
+				if lerr != nil || len(listed) != 1 || ferr != nil || !bytes.Equal(got, blob) {
+					r.Violation(map[string]string{"kind": "fetch", "why": "manifest-of-exactly-the-cap"}, fmt.Sprintf("a signature manifest of exactly %d bytes (the cap, not over it): listing err=%v (%d listed), fetch err=%v", capBytes, lerr, len(listed), ferr), nil)
+				}
+			} else if ferr == nil {
+				r.Violation(map[string]string{"kind": "hostile-not-refused", "hostile": "manifest-one-byte-over-the-cap"}, "a signature manifest one byte over the cap was fetched", nil)
+			}
+		}
+	}()
 
 	// one real envelope just above the 32 MiB cap
 	func() {
